@@ -211,7 +211,7 @@ func CountFunc(query *Query, current Map, functionOptions *FunctionOptions, args
 func ConcatFunc(query *Query, current Map, functionOptions *FunctionOptions, args []any) (any, error) {
 	var buffer bytes.Buffer
 	for _, arg := range args {
-		buffer.WriteString(fmt.Sprintf("%v", arg))
+		buffer.WriteString(TextOf(arg))
 	}
 	return buffer.String(), nil
 }
@@ -358,7 +358,7 @@ func ChangeTypeFunc(query *Query, current Map, functionOptions *FunctionOptions,
 		}
 	case "string":
 		{
-			return fmt.Sprintf("%v", *value), nil
+			return TextOf(*value), nil
 		}
 	case "double":
 		{
@@ -877,6 +877,18 @@ func TimestampFunc(query *Query, current Map, functionOptions *FunctionOptions, 
 	return time.Now().UnixNano(), nil
 }
 
+// The textual form of a value. A floating point number is written as its
+// shortest exact decimal text without an exponent (%v writes 1000000 as 1e+06)
+func TextOf(value any) string {
+	switch value := value.(type) {
+	case float64:
+		return strconv.FormatFloat(value, 'f', -1, 64)
+	case float32:
+		return strconv.FormatFloat(float64(value), 'f', -1, 32)
+	}
+	return fmt.Sprintf("%v", value)
+}
+
 func Guard(n int, args []any) error {
 	if len(args) < n {
 		return fmt.Errorf("too few arguments")
@@ -902,7 +914,7 @@ func ToInt(any any) (int, error) {
 	// This way of casting values to float64 is inefficient
 	// I have used this technique to avoid writing a long
 	// switch case only.
-	number, err := strconv.Atoi(fmt.Sprintf("%v", any))
+	number, err := strconv.Atoi(TextOf(any))
 	if err != nil {
 		return 0, err
 	}
